@@ -77,6 +77,18 @@ Proof.
   destruct r; reflexivity.
 Qed.
 
+(* WF is exactly the round-trip condition: for ANY runestone value r, the
+   transaction carrying encipher r deciphers to r (edicts sorted) if and only if
+   r is well-formed for that transaction. *)
+Theorem C25_roundtrip_iff : forall (r : Runestone) (pre post : list (list N)) (s : list N),
+  len pre + 1 + len post <= U32_MAX ->
+  Forall (fun s => ~ starts_with_magic s) pre ->
+  encipher r = Ok s ->
+  (decipher (pre ++ s :: post) =
+     Ok (Some (ARunestone (mkRunestone (sort_edicts (edicts r)) (etching r) (mint r) (pointer r)))) <->
+   wf_runestone (len pre + 1 + len post) r = true).
+Proof. exact roundtrip_iff. Qed.
+
 (* ---- 2. totality ----
    Deciphering any transaction (arbitrary output script bytes) with at most
    u32::MAX outputs never panics (and the model's loop fuel is never exhausted);
@@ -197,6 +209,7 @@ Print Assumptions C25_sort_edicts_spec.
 Print Assumptions C25_encipher_total.
 Print Assumptions C25_decipher_wf.
 Print Assumptions C25_reencipher.
+Print Assumptions C25_roundtrip_iff.
 Print Assumptions C25_decipher_total.
 Print Assumptions C25_flaw_order.
 Print Assumptions C25_message_flaw_first.
